@@ -575,7 +575,7 @@ func genAll(r *lib.Rng, n int, thorough bool) {
 		nt, no = 400, 100
 	}
 	genTargets(r, nt)
-	if os.Getenv("C20_QUIC") == "1" {
+	if os.Getenv("C20_QUIC") != "0" { // on by default since the defect (D-C20b) is repaired in /repo
 		genQUIC(r)
 	}
 	for i := 0; i < no; i++ {
